@@ -150,12 +150,11 @@ def main(argv):
         notes.extend(f"{g}: {n}" for n in r.get('notes', []))
         if r['status'] == 'error':
             errors.append(f"generator {g}: {r.get('reason')}\n{r.get('traceback', '')}")
-            continue
+            lines.append(f"GENERATOR-ERROR obligation={prop}.{g} reason={r.get('reason')}")
         if r['status'] == 'unbound':
             unbound.append({'generator': g, 'reason': r.get('reason')})
             lines.append(f"UNBOUND obligation={prop}.{g} reason={r.get('reason')}")
-            # every ledger item of this generator is now missing
-            continue
+        # (the items generated before an unbound / erroring generator stopped are processed like all others)
         if r.get('cover') == 'unsat':
             cover_bad.append(g)
             errors.append(f"generator {g}: contract hypotheses are unsatisfiable (vacuous)")
@@ -206,6 +205,10 @@ def main(argv):
             else:
                 undecided.append({'obligation': f"{prop}.{full}", 'verdict': it['verdict'], 'model_confirmed': it.get('model_confirmed')})
                 lines.append(f"UNDECIDED obligation={prop}.{full} verdict={it['verdict']} (not in ledger; not a violation)")
+        if r['status'] != 'ok':
+            # keep the reference entry of a generator that did not complete
+            new_ledger[g] = ledger.get(g, {'proved': proved_names})
+            continue
         new_ledger[g] = {'proved': proved_names}
         # ledger items that vanished (renamed paths) are reported, not alarmed
         for nm in ledger.get(g, {}).get('proved', []):
